@@ -64,11 +64,15 @@ CHECKS['C13'] = dict(
     category='proof',
     text="Deductive (all inputs): incr_id_after / decr_id / incr_id / last are proved equal to the renumbering "
          "spec; renumbering is injective and length preserving; (bounded: sequence lengths <= 4) it preserves the "
-         "dependency relation between surviving lines. The whole-state editing invariant is not covered.",
+         "dependency relation between surviving lines. The whole-state editing invariant (re-check = stated goal, "
+         "numbering, citations, no_gaps when finished, export/re-import, copy isolation) is covered by a bounded "
+         "stand-in only: generated goals and recorded library steps with random perturbations, every step on a copy "
+         "first, invariant checked after every completed step - labelled bounded.",
     note="Trusted: pyvc, z3. Three lemmas are bounded (enumerated lengths), reported separately. ProofState-level "
-         "clauses (re-check, export/import, copy isolation) are out of reach of the current engine.",
+         "clauses are explored, not proved (heap of aliased Proof/ProofItem objects). Four findings repaired "
+         "(revert_intro, exists_elim, intros with several variables, apply_tactic up to eta).",
     technique="contract-based deductive verification of the identifier arithmetic (ast->z3, sequence theory), "
-              "bounded enumeration for three lemmas",
+              "bounded enumeration for three lemmas, run-time contract on ProofState over generated edit sequences",
     design='4 C13')
 
 CHECKS['C20'] = dict(
@@ -138,6 +142,14 @@ _bounded('C17',
          "the HOL wrapper's explanations are re-checked by the kernel.",
          "No deductive part (one global representation invariant over aliased dictionaries). Explanations the HOL "
          "wrapper fails to build (exception) count as no answer.", '4 C17')
+
+_bounded('C08',
+         "Bounded stand-in (not a proof): type_infer on erasures (5 kinds) of generated well-typed terms over theory "
+         "real (overloaded arithmetic, polymorphic constants, higher-order variables, nested binders), on ill-typed "
+         "mutants, on occurs-check chains in all constraint orders and on clashing variable uses: own error or a "
+         "type-correct, same-shape, annotation-preserving, fully determined result; exact recovery of the original.",
+         "No deductive part (closures over shared union-find state, in-place mutation). Two findings repaired "
+         "(occurs check not transitive; annotated and unannotated occurrence of one variable at two types).", '4 C08')
 
 NOT_APPLICABLE = {
     'C19': "real-analytic equality of integrals/limits/series with a numeric floating-point oracle; no decidable "
